@@ -2,7 +2,7 @@
 """Self-test: runs the target checks (quick tier) against every hand-written mutant and seeded change.
 usage: tools/mutrun.py [name-substring ...]   -> results appended to /tmp/vw/mutrun.log and printed"""
 import json, subprocess, sys, os, glob, time
-W = "/tmp/seedrun"
+W = os.environ.get("MUTW", "/tmp/seedrun")
 def sh(cmd, **kw):
     return subprocess.run(cmd, shell=True, capture_output=True, text=True, **kw)
 head = sh("git -C /repo rev-parse HEAD").stdout.strip()
